@@ -1252,7 +1252,24 @@ fn run_one(source: Source, handler_mode: bool, keep_log: bool) -> RunResult {
                 let is_fg = matches!(st, Step::Fg { .. });
                 let (gid, pids) = {
                     let j = &sh.jobs[&id];
-                    (j.gid, j.pids.clone())
+                    // the processes the table lists, in the order the pipeline was launched (the model's
+                    // order, not whatever order the table keeps them in): "the last process" is the last stage
+                    let w = wl.lock().unwrap();
+                    let mut ordered: Vec<i32> = Vec::new();
+                    if let Some(mj) = w.jobs.iter().rev().find(|mj| mj.gid == j.gid) {
+                        for pi in &mj.procs {
+                            let pid = w.procs[*pi].pid;
+                            if j.pids.contains(&pid) {
+                                ordered.push(pid);
+                            }
+                        }
+                    }
+                    for pid in &j.pids {
+                        if !ordered.contains(pid) {
+                            ordered.push(*pid);
+                        }
+                    }
+                    (j.gid, ordered)
                 };
                 {
                     let mut w = wl.lock().unwrap();
